@@ -165,6 +165,34 @@ def run(tier: str, seed: int, t0: float) -> int:
                         bm.add({"ev": "Begin", "tid": tid, "seq": 0, "doc": bm.doc(d), "ra": proj.pattrs(rd.attrs)})
                         res = ops.run_op((lambda: tr.add_mark(f, t, m)) if which == "add" else (lambda: tr.remove_mark(f, t, m)))
                         sessions.observe(bm, tr, tid, 1, which + "_mark", {"from": f, "to": t, "mark": proj.pmark(m)}, res)
+    # shaped documents beyond the token bound: marked text on both sides of an inline leaf that is not marked (or marked
+    # differently), two such runs, a leaf at either end - every range x add / remove (instance, type, all)
+    emk, lu, lv = marks_m[0], marks_m[2], schm.marks["link"].create({"href": "v"})
+    T_ = lambda c, *ms: schm.text(c, list(ms))                                   # noqa: E731
+    brn = schm.nodes["br"].create()
+    P_ = lambda *k: schm.nodes["p"].create(None, list(k))                        # noqa: E731
+    shaped_m = [[P_(T_("a", emk), brn, T_("b", emk))], [P_(T_("a", lu), brn, T_("b", lu), T_("c"))], [P_(brn, T_("a", emk), brn.mark([emk]), T_("b", emk), brn)],
+                [P_(T_("a", emk, lu), brn.mark([lu]), T_("b", emk, lv))], [P_(T_("a", emk), brn), P_(brn, T_("b", emk))], [P_(T_("a", lu), brn, T_("b", lv), brn, T_("c", lu))]]
+    for kids in shaped_m:
+        rd = schm.nodes["doc"].create(None, kids)
+        d = proj.proj(rd)
+        n = rd.content.size
+        for f in range(n + 1):
+            for t in range(f + 1, n + 1):
+                variants = [("add_mark", m, (lambda m=m: lambda tr: tr.add_mark(f, t, m))()) for m in marks_m]
+                variants += [("remove_mark", m, (lambda m=m: lambda tr: tr.remove_mark(f, t, m))()) for m in marks_m + [lv]]
+                variants += [("remove_mark_type", None, lambda tr: tr.remove_mark(f, t, schm.marks["em"])),
+                             ("remove_mark_type", None, lambda tr: tr.remove_mark(f, t, schm.marks["link"])),
+                             ("remove_mark_all", None, lambda tr: tr.remove_mark(f, t, None))]
+                for opn, m, fn in variants:
+                    tid += 1
+                    tr = Transform(rd)
+                    bm.add({"ev": "Begin", "tid": tid, "seq": 0, "doc": bm.doc(d), "ra": proj.pattrs(rd.attrs)})
+                    res = ops.run_op(lambda: fn(tr))
+                    args = {"from": f, "to": t}
+                    if m is not None:
+                        args["mark"] = proj.pmark(m)
+                    sessions.observe(bm, tr, tid, 1, opn, args, res)
     jobs.append(("Trace_Transform", bm, "G+T mark histories[s1t]"))
     # ---- T single-step inverse under every schema
     for name in schemas.BUNDLED_PLUS + ["s1", "s3", "s4"]:
